@@ -10,6 +10,7 @@ import (
 	"time"
 
 	"github.com/ipni/go-libipni/announce"
+	"github.com/ipni/go-libipni/announce/gossiptopic"
 	"github.com/ipni/go-libipni/announce/message"
 	"github.com/ipni/go-libipni/announce/p2psender"
 	pubsub "github.com/libp2p/go-libp2p-pubsub"
@@ -129,6 +130,7 @@ func runC16(c *vf.Ctx) {
 	c16Sequential(c)
 	c16Concurrent(c)
 	c16HostNoTopic(c)
+	c16UncacheStress(c)
 	c16Blocked(c)
 	c16Resend(c)
 	c16Callback(c)
@@ -361,13 +363,30 @@ func c16HostNoTopic(c *vf.Ctx) {
 			seq = append(seq, c16Alphabet[r.Intn(len(c16Alphabet))])
 		}
 		c.Cur(sub, i, "host, no topic: "+strings.Join(seq, ","))
-		wit := func() any { return map[string]any{"receiver": "NewReceiver(host, \"\")", "sequence": seq} }
+		shape := "NewReceiver(host, \"\")"
+		wit := func() any { return map[string]any{"receiver": shape, "sequence": seq} }
 		h, err := newHost()
 		if err != nil {
 			c.Inconclusive(sub, i, "host-create", err.Error(), nil)
 			continue
 		}
-		rc, err := announce.NewReceiver(h, "")
+		var rc *announce.Receiver
+		stopPS := func() {}
+		if i%3 == 2 {
+			// the converse: a ready-made topic (for republication) but no host, so no watcher either
+			shape = "NewReceiver(nil, \"\", WithTopic(t))"
+			topic, cancelPS, terr := gossiptopic.MakeTopic(h, fmt.Sprintf("/verif/c16/nohost/%d/%d", c.Seed, i))
+			if terr != nil {
+				c.Inconclusive(sub, i, "topic-create", terr.Error(), nil)
+				h.Close()
+				continue
+			}
+			stopPS = cancelPS
+			rc, err = announce.NewReceiver(nil, "", announce.WithTopic(topic))
+			c.Inc("topic_without_host_runs")
+		} else {
+			rc, err = announce.NewReceiver(h, "")
+		}
 		if err != nil {
 			c.Fail(sub, i, "receiver-create-error", err.Error(), wit())
 			h.Close()
@@ -399,10 +418,100 @@ func c16HostNoTopic(c *vf.Ctx) {
 				}
 			}
 		}
+		stopPS()
 		h.Close()
 		c.Eval(1)
 		c.Inc("host_without_topic_runs")
-		c.Distinct(sub, strings.Join(seq, ","))
+		c.Distinct(sub, shape+":"+strings.Join(seq, ","))
+	}
+}
+
+// many Direct and UncacheCid calls at once on few CIDs, a consumer taking what is delivered: all of them return, and
+// Close returns afterwards (the two calls share the duplicate cache; whatever guards it must not be able to deadlock)
+func c16UncacheStress(c *vf.Ctx) {
+	const sub = "uncache-direct-stress"
+	if !c.Active(sub) {
+		return
+	}
+	n := c.N(8, 80)
+	pid := Keys()["ed25519"][0].ID
+	for i := 0; i < n; i++ {
+		if !c.Mine(sub, i) || c16TooManyHangs() {
+			continue
+		}
+		r := c.Rand(sub, i)
+		nd, nu := 2+r.Intn(4), 2+r.Intn(4)
+		desc := fmt.Sprintf("%d goroutines x 300 Direct, %d goroutines x 3000 UncacheCid, 3 CIDs, one consumer; then Close", nd, nu)
+		c.Cur(sub, i, desc)
+		wit := func() any { return map[string]any{"scenario": desc} }
+		rc, err := announce.NewReceiver(nil, "")
+		if err != nil {
+			c.Fail(sub, i, "receiver-create-error", err.Error(), wit())
+			continue
+		}
+		ctx, cancel := context.WithCancel(context.Background())
+		var delivered, calls atomic.Int64
+		consumerDone := make(chan struct{})
+		go func() {
+			defer close(consumerDone)
+			for {
+				if _, err := rc.Next(ctx); err != nil {
+					return
+				}
+				delivered.Add(1)
+			}
+		}()
+		var wg sync.WaitGroup
+		for g := 0; g < nd; g++ {
+			wg.Add(1)
+			go func(g int) {
+				defer wg.Done()
+				for k := 0; k < 300 && ctx.Err() == nil; k++ {
+					_ = rc.Direct(ctx, c09Cid((g+k)%3), peer.AddrInfo{ID: pid, Addrs: []multiaddr.Multiaddr{c09Marker(k)}})
+					calls.Add(1)
+				}
+			}(g)
+		}
+		for g := 0; g < nu; g++ {
+			wg.Add(1)
+			go func(g int) {
+				defer wg.Done()
+				for k := 0; k < 3000 && ctx.Err() == nil; k++ {
+					rc.UncacheCid(c09Cid((g + k) % 3))
+					calls.Add(1)
+				}
+			}(g)
+		}
+		finished := make(chan struct{})
+		go func() { wg.Wait(); close(finished) }()
+		stalled := false
+		select {
+		case <-finished:
+		case <-time.After(c16Watchdog):
+			stalled = true
+		}
+		cancel()
+		res := c16Do(rc, "Close", 0)
+		if c16CheckResult(c, sub, i, []string{"Direct||UncacheCid", "Close"}, 1, res, false, wit) {
+			if stalled {
+				c.Inconclusive(sub, i, "stress-phase-did-not-finish", fmt.Sprintf("%d calls returned", calls.Load()), wit())
+			} else {
+				for k, op := range []string{"Direct", "Next", "Uncache", "Close"} {
+					if !c16CheckResult(c, sub, i, []string{"after-stress", op}, k, c16Do(rc, op, 100+k), true, wit) {
+						break
+					}
+				}
+			}
+		}
+		select {
+		case <-consumerDone:
+		case <-time.After(c16Watchdog):
+		}
+		c.Eval(1)
+		c.Add("stress_calls_returned", calls.Load())
+		c.Add("stress_announcements_delivered", delivered.Load())
+		c.Inc("stress_runs")
+		c.Distinct(sub, fmt.Sprintf("%d/%d", nd, nu))
 	}
 }
 
